@@ -27,7 +27,7 @@ Has(ev, f) == f \in DOMAIN ev
 ToSet(seq) == {seq[i] : i \in 1..Len(seq)}
 NoObs == [none |-> TRUE]
 
-CntKeys == {"reset", "pos", "mv", "do", "undo", "donull", "undonull",
+CntKeys == {"reset", "pos", "mv", "do", "undo", "donull", "undonull", "searched", "searched_aborted",
             "legal_cmp", "fen_cmp", "pred_cmp", "key_cmp", "cls_cmp", "uci_cmp", "enc_cmp", "san_cmp", "undo_cmp", "rt_cmp", "wf_cmp",
             "n_ep", "n_check", "n_castle", "n_promo", "n_mate", "n_stale", "n_rep", "n_rep3", "n_r50", "n_insuff",
             "n_epmove", "n_castlemove", "n_promomove", "n_checkmove", "n_capmove", "n_revisit", "viol"}
@@ -225,6 +225,10 @@ ProcessOp(s, ev, ln) ==
                   viol |-> <<>>]
     [] ev.e = "commit" ->
          [st |-> [s EXCEPT !.g = Commit(s.g), !.obsStack = <<>>], viol |-> <<>>]
+    [] ev.e = "searched" ->     \* a search ran on a copy of the current position: the move it announced is a move of this position
+         [st |-> [s EXCEPT !.cnt = Bump(s.cnt, {"searched"} \cup (IF ev.aborted THEN {"searched_aborted"} ELSE {}))],
+          viol |-> IF WellFormedUci(ev.bestmove) /\ ParseUci(ev.bestmove) \in Legal(s.g.cur) THEN <<>>
+                   ELSE <<V(ln, "C05", "illegal_bestmove", Fen(s.g.cur), [bestmove |-> ev.bestmove, aborted |-> ev.aborted])>>]
     [] OTHER -> [st |-> s, viol |-> <<V(ln, "X", "unknown_event", "", [e |-> ev.e])>>]
 
 Process(s, ev, ln) ==
